@@ -31,6 +31,8 @@ type chandler struct {
 	recv     map[string][]byte
 	traffic  map[string]int
 	closeErr map[string]bool // OnClose err != nil
+	inTick   int32           // OnTick callbacks executing right now
+	slowTick bool
 }
 
 func (h *chandler) OnBoot(eng gnet.Engine) gnet.Action {
@@ -75,7 +77,12 @@ func (h *chandler) OnClose(c gnet.Conn, err error) gnet.Action {
 }
 
 func (h *chandler) OnTick() (time.Duration, gnet.Action) {
+	atomic.AddInt32(&h.inTick, 1)
+	defer atomic.AddInt32(&h.inTick, -1)
 	h.log("tick", "") // not part of the trace, but a tick after Stop returned is a callback after the end (C06)
+	if h.slowTick {
+		time.Sleep(30 * time.Millisecond) // Stop will almost certainly be called while a tick is running
+	}
 	return 5 * time.Millisecond, gnet.None
 }
 
@@ -268,7 +275,10 @@ func runClientLife(ws []string) string {
 	}
 	s := &server{sc: scenario{source: "client"}, booted: make(chan struct{}), opened: map[string]int{}, closed: map[string]int{}, loopOf: map[string]int64{},
 		remote: map[string]string{}, inCB: map[int64]int32{}}
-	h := &chandler{server: s, recv: map[string][]byte{}, traffic: map[string]int{}, closeErr: map[string]bool{}}
+	h := &chandler{server: s, recv: map[string][]byte{}, traffic: map[string]int{}, closeErr: map[string]bool{}, slowTick: mode == "slowtick"}
+	if mode == "slowtick" {
+		ticker = true
+	}
 	cli, err := gnet.NewClient(h, gnet.WithLogger(quiet{}), gnet.WithNumEventLoop(loops), gnet.WithTicker(ticker), gnet.WithEdgeTriggeredIO(et))
 	if err != nil {
 		return "result=newclient-failed"
@@ -529,6 +539,9 @@ func runClientLife(ws []string) string {
 	case err := <-done:
 		if err != nil {
 			util.Fail(fmt.Sprintf("C06: Client.Stop returned %v", err))
+		}
+		if n := atomic.LoadInt32(&h.inTick); n != 0 {
+			util.Fail("C06: Client.Stop returned while OnTick was still executing")
 		}
 	case <-time.After(10 * time.Second):
 		util.Fail("C06: Client.Stop did not return within 10 s")
